@@ -433,6 +433,28 @@ def normalise(tree, rel: str) -> int:
             total += (sum(inl.sites.values()) if inl.sites else 0) - before
         if not changed_any:
             break
+    # a helper all of whose call sites were expanded is dead code in the normalised program: it is dropped, so that who-may-call
+    # censuses do not count the copy of the code that is left in it
+    helpers = [hf for (hf, _b) in inl.mod_new.values()] + [hf for d in inl.cls_new.values() for (hf, _b) in d.values()]
+    for hf in helpers:
+        if not inl.sites.get(id(hf)):
+            continue
+        still = False
+        for n in ast.walk(tree):
+            if isinstance(n, ast.Call) and ((isinstance(n.func, ast.Name) and n.func.id == hf.name) or
+                                            (isinstance(n.func, ast.Attribute) and n.func.attr == hf.name)):
+                if not any(n is x for x in ast.walk(hf)):
+                    still = True
+                    break
+            if isinstance(n, ast.Attribute) and n.attr == hf.name and not isinstance(getattr(n, "ctx", None), ast.Store):
+                pass
+        if still:
+            continue
+        for owner in [tree] + [c for c in tree.body if isinstance(c, ast.ClassDef)]:
+            if hf in owner.body:
+                owner.body.remove(hf)
+                if not owner.body:
+                    owner.body.append(ast.Pass(lineno=getattr(owner, "lineno", 1), col_offset=0))
     for qual, f, cname in _defs(tree):
         if getattr(f, "_inlined", False):
             ast.fix_missing_locations(f)
